@@ -5,9 +5,13 @@ import RbModel.Pc
 * `(pc.run <expr> (<sym> …) <start>)`            → one result
 * `(pc.runall <expr> <alphabet> <maxlen> <start>)` → `(r …)`: the results on every input over `0..alphabet-1`
   of length `0..maxlen` (by length, then lexicographically), each run from position `start`
+* `(pc.token <kind> (<sym> …))` → `panic` (`Token::new` on the empty text) or
+  `(tok <kind> (str …) <try> <demand>)`: `try_as_single_char` (`none` / symbol), `demand_single_char` (`panic` / symbol)
 
 Results: `(ok <val> <pos>)`, `(soft <code> <pos>)`, `(fatal <code> <pos>)`, `hang`.
-Values: `u`, `(s n)`, `(p a b)`, `n`, `(c h t)`, `none`, `(some v)`. -/
+Values: `u`, `(s n)`, `(p a b)`, `n`, `(c h t)`, `none`, `(some v)`, `(str c …)`, `(tok k c …)`, `(num n)`.
+Two library functions are compositions of modelled ones and are expanded here: `(oneStr k)` = `one_char_to_str`,
+`(manyStrWith mc k)` = `many_str_with_combiner`. -/
 namespace RbModel.Drv.Pc
 open RbModel RbModel.Pc
 
@@ -15,6 +19,22 @@ def cmb? : Sexp → Option Cmb
   | .atom "tuple" => some .tuple
   | .atom "left" => some .left
   | .atom "right" => some .right
+  | .atom "ignore" => some .ignore
+  | .atom "swap" => some .swap
+  | .atom "vec2" => some .vec2
+  | .atom "vecCat" => some .vecCat
+  | .atom "strCat" => some .strCat
+  | .atom "optStrCat" => some .optStrCat
+  | .atom "chars" => some .chars
+  | .atom "charOpt" => some .charOpt
+  | .atom "charVec" => some .charVec
+  | _ => none
+
+def mcmb? : Sexp → Option MCmb
+  | .atom "vec" => some .vec
+  | .atom "str" => some .str
+  | .atom "tokStr" => some .tokStr
+  | .atom "ignore" => some .ignore
   | _ => none
 
 def pred? : Sexp → Option Pred
@@ -27,6 +47,12 @@ def mapFn? : Sexp → Option MapFn
   | .atom "unit" => some .toUnit
   | .atom "wrap" => some .wrap
   | .atom "dup" => some .dup
+  | .atom "charStr" => some .charStr
+  | .list [.atom "mkTok", k] => do pure (.mkTok (← k.nat?))
+  | .atom "tokKind" => some .tokKind
+  | .atom "tokText" => some .tokText
+  | .atom "tokChar" => some .tokChar
+  | .atom "tokShow" => some .tokShow
   | _ => none
 
 def errFn? : Sexp → Option ErrFn
@@ -50,6 +76,9 @@ partial def expr? : Sexp → Option PExpr
   | .list [.atom "or3", a, b, c] => do pure (.or3 (← expr? a) (← expr? b) (← expr? c))
   | .list [.atom "orNoBox", a, b] => do pure (.orNoBox (← expr? a) (← expr? b))
   | .list [.atom "many", an, e] => do pure (.many (← an.bool?) (← expr? e))
+  | .list [.atom "manyC", mc, an, e] => do pure (.manyC (← mcmb? mc) (← an.bool?) (← expr? e))
+  | .list [.atom "oneStr", k] => do pure (oneStrE (← k.nat?))
+  | .list [.atom "manyStrWith", mc, k] => do pure (manyStrWithE (← mcmb? mc) (← k.nat?))
   | .list [.atom "manyCtx", an, e] => do pure (.manyCtx (← an.bool?) (← expr? e))
   | .list [.atom "filter", pr, e] => do pure (.filter (← pred? pr) (← expr? e))
   | .list [.atom "filterMap", k, e] => do pure (.filterMap (.dupIf (← k.nat?)) (← expr? e))
@@ -80,7 +109,12 @@ partial def expr? : Sexp → Option PExpr
   | .list [.atom "iif", b, l, r] => do pure (.iif (← b.bool?) (← expr? l) (← expr? r))
   | _ => none
 
+def natsStr (l : List Nat) : String := String.join (l.map (fun c => " " ++ toString c))
+
 def valStr : Val → String
+  | .str cs => "(str" ++ natsStr cs ++ ")"
+  | .tok k t => "(tok " ++ toString k ++ natsStr t ++ ")"
+  | .num n => "(num " ++ toString n ++ ")"
   | .unit => "u"
   | .sym n => "(s " ++ toString n ++ ")"
   | .pair a b => "(p " ++ valStr a ++ " " ++ valStr b ++ ")"
@@ -116,6 +150,15 @@ def handle (cmd : String) (args : List Sexp) : Option String :=
       let maxlen ← maxlen.nat?
       let start ← start.nat?
       pure ("(" ++ " ".intercalate ((allInputs k maxlen).map (fun inp => resStr (run e inp start))) ++ ")")
+  | "pc.token", [k, t] => do
+      let k ← k.nat?
+      let t ← t.nats?
+      match Token.new? k t with
+      | none => pure "panic"
+      | some tok =>
+        let tr := match tok.trySingleChar with | some c => toString c | none => "none"
+        let dm := match tok.demandSingleChar? with | some c => toString c | none => "panic"
+        pure ("(tok " ++ toString tok.kind ++ " (str" ++ natsStr tok.toText ++ ") " ++ tr ++ " " ++ dm ++ ")")
   | _, _ => none
 
 end RbModel.Drv.Pc
